@@ -33,6 +33,9 @@ func (o op) String() string {
 		ms := make([]string, len(o.Msgs))
 		for i, m := range o.Msgs {
 			ms[i] = hex.EncodeToString(m)
+			if len(m) > 600 { // long-message tail: keep failure messages and samples readable
+				ms[i] = fmt.Sprintf("%s..(%d bytes)", hex.EncodeToString(m[:32]), len(m))
+			}
 		}
 		return fmt.Sprintf("app(%q,%v)", o.Label, ms)
 	default:
@@ -52,16 +55,55 @@ func opsEqual(a, b op) bool {
 	return true
 }
 
-var labelGen = rapid.OneOf(
+var labelGenUsual = rapid.OneOf(
 	rapid.SampledFrom([]string{"", "a", "ab", "abc", "b", "bc", "c", "label", "label2", "\x00", "\x00\x00", "\xa1"}),
 	rapid.StringN(0, 12, 40),
 )
 
-var msgGen = rapid.OneOf(
-	rapid.SampledFrom([][]byte{{}, {0}, {0, 0}, []byte("a"), []byte("ab"), []byte("abc"), []byte("b"), []byte("bc"), []byte("c"),
-		{0, 0, 0, 0, 0, 0, 0, 1}, {0xa0}, {0xa1}, {0xa2}, {0xa3}, {0xa4}}),
+var smallMsgs = [][]byte{{}, {0}, {0, 0}, []byte("a"), []byte("ab"), []byte("abc"), []byte("b"), []byte("bc"), []byte("c"),
+	{0, 0, 0, 0, 0, 0, 0, 1}, {0xa0}, {0xa1}, {0xa2}, {0xa3}, {0xa4}}
+
+var msgGenUsual = rapid.OneOf(
+	rapid.SampledFrom(smallMsgs),
 	rapid.SliceOfN(rapid.Byte(), 0, 200),
 )
+
+// Low-weight tails of LONG labels and messages. The transcript frames every label, message and
+// message count with an 8-byte big-endian length and absorbs into cSHAKE256 (rate 136 bytes);
+// it imposes no limit on any length. Lengths up to 200 keep seven of the eight prefix bytes zero,
+// so the tails cross 255/256/257 (second prefix byte), the rate (135..137, 271..273) and reach a
+// few thousand bytes.
+var longLens = []int{135, 136, 137, 255, 256, 257, 271, 272, 273, 300, 512, 1000, 4096}
+
+var labelGen = rapid.Custom(func(t *rapid.T) string {
+	if rapid.IntRange(1, 30).Draw(t, "longLabel") == 30 {
+		n := rapid.SampledFrom(longLens[:11]).Draw(t, "labelLen")
+		return string(h2cStream(rapid.Uint64().Draw(t, "labelSeed"), "label", n))
+	}
+	return labelGenUsual.Draw(t, "label")
+})
+
+var msgGen = rapid.Custom(func(t *rapid.T) []byte {
+	if rapid.IntRange(1, 30).Draw(t, "longMsg") == 30 {
+		n := rapid.SampledFrom(longLens).Draw(t, "msgLen")
+		return h2cStream(rapid.Uint64().Draw(t, "msgSeed"), "msg", n)
+	}
+	return msgGenUsual.Draw(t, "msg")
+})
+
+// genMsgs: 0..4 messages per append, rarely many (the message count is framed like a length;
+// 255/256/257 messages cross its second byte) - then of the small fixed messages only.
+func genMsgs(t *rapid.T, name string) [][]byte {
+	if rapid.IntRange(1, 40).Draw(t, name+"manyMsgs") == 40 {
+		n := rapid.SampledFrom([]int{5, 9, 17, 255, 256, 257}).Draw(t, name+"msgCount")
+		out := make([][]byte, n)
+		for i := range out {
+			out[i] = smallMsgs[rapid.IntRange(0, len(smallMsgs)-1).Draw(t, fmt.Sprintf("%sm%d", name, i))]
+		}
+		return out
+	}
+	return rapid.SliceOfN(msgGen, 0, 4).Draw(t, name+"msgs")
+}
 
 func genOp(t *rapid.T, name string) op {
 	switch rapid.IntRange(0, 9).Draw(t, name+"kind") {
@@ -71,7 +113,7 @@ func genOp(t *rapid.T, name string) op {
 		ns := []uint{1, 2, 15, 16, 17, 31, 32, 33, 64, 136, 137, 272, 300}
 		return op{Kind: "ext", Label: labelGen.Draw(t, name+"label"), N: rapid.SampledFrom(ns).Draw(t, name+"n")}
 	default:
-		return op{Kind: "app", Label: labelGen.Draw(t, name+"label"), Msgs: rapid.SliceOfN(msgGen, 0, 4).Draw(t, name+"msgs")}
+		return op{Kind: "app", Label: labelGen.Draw(t, name+"label"), Msgs: genMsgs(t, name)}
 	}
 }
 
@@ -317,6 +359,9 @@ func TestTranscriptPairs(t *testing.T) {
 	vlib.Check(t, 12000, func(t *rapid.T) {
 		name := rapid.SampledFrom([]string{"", "p", "proto", "proto2"}).Draw(t, "name")
 		n := rapid.IntRange(1, 8).Draw(t, "len")
+		if rapid.IntRange(1, 40).Draw(t, "longHistory") == 40 {
+			n = rapid.SampledFrom([]int{9, 16, 33}).Draw(t, "lenBig") // no limit on the number of operations
+		}
 		h := make([]op, n)
 		for i := range h {
 			h[i] = genOp(t, fmt.Sprintf("op%d.", i))
